@@ -403,3 +403,24 @@ Section Towers.
      (c_cmp B (c1 a) (c1 b) = Lt \/ (c_cmp B (c1 a) (c1 b) = Eq /\ c_cmp B (c0 a) (c0 b) = Lt))).
   Proof. intros. unfold cubic_cmp. rewrite lex_assoc, !lex_lt. reflexivity. Qed.
 End Towers.
+
+(* ---------- corollaries used by Props/C19.v ---------- *)
+
+Theorem fp_hash_respects_eq : forall (H : Type) (h : list Z -> H) a b,
+  fp_eqb a b = true -> h (fp_hash_key a) = h (fp_hash_key b).
+Proof. intros H h a b E. apply arr_eqb_spec in E. subst. reflexivity. Qed.
+
+Theorem bigint_hash_respects_eq : forall (H : Type) (h : list Z -> H) a b,
+  bigint_eqb a b = true -> h (bigint_hash_key a) = h (bigint_hash_key b).
+Proof. intros H h a b E. apply arr_eqb_spec in E. subst. reflexivity. Qed.
+
+(* the Fp12 = Fp6[w], Fp6 = Fp2[v], Fp2 = Fp[u] tower of the pairing-friendly curves *)
+Theorem fq12_tower_good : forall m, wf m -> val m mod 2 = 1 -> 1 < val m ->
+  good_cops (quad_D (cubic_D (quad_D (fp_valid m))))
+            (quad_den (cubic_den (quad_den (fun a => [std m a]))))
+            (QuadC (CubicC (QuadC (FpC m)))).
+Proof. intros m Hm Ho Hp. apply quad_good, cubic_good, quad_good, fp_good; auto. Qed.
+
+Theorem fq3_tower_good : forall m, wf m -> val m mod 2 = 1 -> 1 < val m ->
+  good_cops (cubic_D (fp_valid m)) (cubic_den (fun a => [std m a])) (CubicC (FpC m)).
+Proof. intros m Hm Ho Hp. apply cubic_good, fp_good; auto. Qed.
